@@ -103,7 +103,8 @@ def _key(case, ln, r):
     if ln["op"] != "case":
         return f"{cl}:{ln['op']}:{ln['kind']}"
     e = ln["ev"][step - 1] if 0 < step <= len(ln["ev"]) else {"e": "-", "f": 0}
-    kind = case["files"][e["f"] - 1]["kind"] if 0 < e["f"] <= len(case["files"]) else "-"
+    f = r.get("file") or e["f"]
+    kind = case["files"][f - 1]["kind"] if 0 < f <= len(case["files"]) else "-"
     return f"{cl}:{case['mode']}:{e['e']}:{kind}"
 
 
@@ -218,9 +219,14 @@ def judge_jobs(ctx: Ctx, jobs, kind="x06", selftest=True, extra_lines=()):
     before = len(ctx.model_drift)
     rejects = ctx.judge(AREA, JUDGE, allv, batch=400 if ctx.quick else 1500)
     ctx.traces -= len(allv) - n
-    for d in ctx.model_drift[before:]:
+    new, ctx.model_drift[before:] = ctx.model_drift[before:], []
+    counts = ctx.notes.setdefault("drift_kinds_first_50", {})
+    for d in new:
         if d.get("what") == "glob-selftest":
             raise MachineryError(f"the judge's Glob disagrees with fnmatch on {allv[d['t']]}")
+        if d["what"] not in counts and d["t"] < n:
+            ctx.model_drift.append(dict(d, example=_show(jobs[d["t"]][1], lines[d["t"]])["events"][-12:] if lines[d["t"]]["op"] == "case" else ""))
+        counts[d["what"]] = counts.get(d["what"], 0) + 1
     seen = {}
     fixed_bad = False
     for r in rejects:
@@ -310,7 +316,9 @@ def run(ctx: Ctx):
         i0, acts = lts.walk(rng, rng.randint(8, 60))
         add(i0, acts, rng.choice(["direct", "rwr"]))
     # (c) seeded random longer schedules, invocation scenarios, terminal echo
-    for _ in range(500 if q else 25000):
+    for c in rl.directed_cases(rng, 12 if q else 400):
+        jobs.append(("case", c))
+    for _ in range(450 if q else 25000):
         jobs.append(("case", rl.random_case(rng, big=not q)))
     for c in rl.args_cases(rng, 40 if q else 2000):
         jobs.append(("args", c))
